@@ -33,6 +33,9 @@ PROFILES = [
     ("missing-media+pages", {"media_dir": "/proj/nomedia", "pages": True}),
     ("css+mathjax", {"css": "/proj/user.css", "mathjax_config": "/proj/conf/mj.js"}),
     ("pages+absolute copy_subdir", {"pages": True, "abs_copy": True}),
+    # graph_dir: the one other directory a run may write to
+    ("saved graphs", {"graph_dir": "/proj/graphs"}),
+    ("saved graphs inside the output directory", {"graph_dir": OUT + "/graphs", "incl_src": True}),
 ]
 STALE = [
     ("absent", {}),
@@ -83,7 +86,7 @@ def _real_extra_sources():
 def _documentation(out, profile, warnings):
     """a Documentation object as Documentation.__init__ leaves it, with real page objects on stand-in entities"""
     opts = dict(profile)
-    data = {"output_dir": VPath(OUT), "graph": False, "search": bool(opts.get("search")), "incl_src": bool(opts.get("incl_src")),
+    data = {"output_dir": VPath(OUT), "graph": bool(opts.get("graph_dir")), "search": bool(opts.get("search")), "incl_src": bool(opts.get("incl_src")),
             "favicon": VPath("/pkg/favicon.png"), "relative": False, "page_dir": VPath("/proj/pages")}
     for k in ("media_dir", "css", "mathjax_config"):
         if k in opts:
@@ -120,12 +123,51 @@ def _documentation(out, profile, warnings):
     d.index, d.search = page(out.IndexPage), page(out.SearchPage)
     d.njobs = 0
     d.graphs = S.Rec(output_graphs=lambda n: None)
+    if opts.get("graph_dir"):
+        d.graphs = _graph_manager(opts["graph_dir"])
     d.tipue = S.Rec(print_output=lambda: None)
     return d
 
 
+class _Dot:
+    """graphviz's Digraph: render(<path>) writes the dot source to <path> and the picture to <path>.svg"""
+
+    def render(self, filename, cleanup=False, **kw):
+        vfs.fs().write(filename, b"digraph {}")
+        vfs.fs().write(str(filename) + ".svg", b"<svg/>")
+        return str(filename) + ".svg"
+
+
+def _graph_manager(graph_dir):
+    """the real GraphManager.output_graphs / FortranGraph.create_svg / _create_image_file on stand-in graphs with two nodes each"""
+    import ford.graphs as gr
+
+    def graph(cls, ident):
+        g = object.__new__(cls)
+        g.root, g.added, g.imgfile, g.dot, g.ident = [1], {1, 2}, ident, _Dot(), ident
+        return g
+
+    gm = object.__new__(gr.GraphManager)
+    gm.save_graphs, gm.graphdir = True, VPath(graph_dir)
+    mod = S.Rec(usesgraph=graph(gr.UsesGraph, "module~~a~~UsesGraph"), usedbygraph=graph(gr.UsedByGraph, "module~~a~~UsedByGraph"))
+    typ = S.Rec(inhergraph=graph(gr.InheritsGraph, "type~~t~~InheritsGraph"), inherbygraph=graph(gr.InheritedByGraph, "type~~t~~InheritedByGraph"))
+    prc = S.Rec(callsgraph=graph(gr.CallsGraph, "proc~~foo~~CallsGraph"), calledbygraph=graph(gr.CalledByGraph, "proc~~foo~~CalledByGraph"))
+    prg = S.Rec(callsgraph=graph(gr.CallsGraph, "program~~b~~CallsGraph"), usesgraph=graph(gr.UsesGraph, "program~~b~~UsesGraph"))
+    fil = S.Rec(afferentgraph=graph(gr.AfferentGraph, "sourcefile~~a.f90~~AfferentGraph"), efferentgraph=graph(gr.EfferentGraph, "sourcefile~~a.f90~~EfferentGraph"))
+    gm.modules, gm.types, gm.procedures, gm.programs, gm.sourcefiles, gm.blockdata = [mod], [typ], [prc], [prg], [fil], []
+    gm.usegraph = gm.typegraph = gm.callgraph = gm.filegraph = None   # the project-wide graphs: empty in this stand-in project
+    return gm
+
+
+def _allowed(p, profile):
+    """inside the output directory or the configured graph directory"""
+    g = dict(profile).get("graph_dir")
+    return vfs.inside(p, OUT) or (g is not None and vfs.inside(p, g))
+
+
 def _run_writeout(profile, stale, fail_at):
     import ford.output as out
+    import ford.graphs as gr
 
     nodes = dict(BASE)
     nodes.update(stale)
@@ -133,9 +175,10 @@ def _run_writeout(profile, stale, fail_at):
     fsys.fail_at = fail_at
     vfs._CUR[0] = fsys
     _real_extra_sources()   # mirrors the two real extra source files into the tree before the snapshot is taken
-    before = {k: v for k, v in fsys.nodes.items() if not vfs.inside(k, OUT)}
+    before = {k: v for k, v in fsys.nodes.items() if not _allowed(k, profile)}
     warnings = []
-    extra = {(out, "shutil"): vfs.ShutilProxy, (out, "pathlib"): vfs.PathlibProxy, (out, "loc"): VPath("/pkg"),
+    extra = {(gr, "pathlib"): vfs.PathlibProxy, (gr, "graphviz_installed"): True,
+             (out, "shutil"): vfs.ShutilProxy, (out, "pathlib"): vfs.PathlibProxy, (out, "loc"): VPath("/pkg"),
              (out, "warn"): (lambda m, *a, **k: warnings.append(str(m))), (out, "print"): (lambda *a, **k: None),
              (out, "ProgressBar"): (lambda label, items, *a, **k: _Bar(items)),
              (out.BasePage, "html"): property(lambda self: "<html>%s</html>" % type(self).__name__)}
@@ -146,7 +189,7 @@ def _run_writeout(profile, stale, fail_at):
             d.writeout()
         except OSError as e:
             raised = e
-    after = {k: v for k, v in fsys.nodes.items() if not vfs.inside(k, OUT)}
+    after = {k: v for k, v in fsys.nodes.items() if not _allowed(k, profile)}
     return fsys, before, after, raised, warnings
 
 
@@ -165,7 +208,7 @@ def replay_confinement(w):
     prof = dict(PROFILES)[w["profile"]]
     stale = dict(STALE)[w["stale"]]
     fsys, before, after, raised, warnings = _run_writeout(prof, stale, w.get("fail_at"))
-    outside = [(op, p) for op, p in fsys.log if not vfs.inside(p, OUT)]
+    outside = [(op, p) for op, p in fsys.log if not _allowed(p, prof)]
     changed = sorted(set(k for k in set(before) | set(after) if before.get(k) != after.get(k)))
     bad = bool(outside) or bool(changed)
     detail = {"profile": w["profile"], "earlier state of the output directory": w["stale"], "fault at operation": w.get("fail_at"),
@@ -225,7 +268,10 @@ def writeout_obligation(ctx, what):
             E.reachable("faulted")
         if what == "confinement":
             for op, p in fsys.log:
-                E.require(sym.mk_bool(z3.BoolVal(vfs.inside(p, OUT))), f"{op} outside the output directory")
+                E.require(sym.mk_bool(z3.BoolVal(_allowed(p, prof))), f"{op} outside the output directory (and graph directory)")
+            if prof.get("graph_dir") and raised is None and not fsys.failed:
+                saved = [k for k in fsys.nodes if vfs.inside(k, prof["graph_dir"]) and k.endswith(".gv")]
+                E.require(sym.mk_bool(z3.BoolVal(len(saved) == 10)), "the saved graph sources are not in the graph directory")
             E.require(sym.mk_bool(z3.BoolVal(before == after)), "a file outside the output directory was created, modified or deleted")
         if raised is None and not fsys.failed:
             E.reachable("completed")
